@@ -168,12 +168,63 @@ def run_sequences(ctx, binary, seqs, envtok, mk_scenario, name, data_verdicts=No
     return rs
 
 
+def refused_changes_nothing(ctx, b):
+    """two-run relation on the implementation (no model involved in the judgement): a command that is out of order and
+    answered 5xx changes nothing, so what follows it is answered - and queued - exactly as if it had not been sent
+    (seeded change c08-m10: a DATA refused with 554 silently ended a bounce transaction)"""
+    pres = [['ehlo']]
+    for s1 in ('mail', 'mail_bounce'):
+        for r1 in ([], ['rcpt_bob'], ['rcpt_alice'], ['rcpt_alice', 'rcpt_carol'], ['rcpt_bob', 'rcpt_alice']):
+            pres.append(['ehlo', s1] + r1)
+    probes = [['mail', 'rcpt_carol', 'data', 'noop'], ['rcpt_carol', 'data', 'noop'], ['rcpt_alice', 'rcpt_carol', 'data'],
+              ['rset', 'mail', 'rcpt_alice', 'data'], ['noop', 'mail_bounce', 'rcpt_alice', 'data']]
+    outoforder = ['data', 'mail', 'mail_bounce', 'rcpt_alice']
+    seqs, index = [], {}
+    for pre in pres:
+        for probe in probes:
+            index[(tuple(pre), None, tuple(probe))] = len(seqs); seqs.append(pre + probe)
+            for x in outoforder:
+                index[(tuple(pre), x, tuple(probe))] = len(seqs); seqs.append(pre + [x] + probe)
+    lines = [W.model_line(W.env_token(), q, None) for q in seqs]
+    models = [W.parse_model(o) for o in (vlib.run_batch(ctx.driver, lines) if ctx.driver else [])]
+    if len(models) != len(seqs):
+        return
+    scs, meta = [], []
+    for q, m in zip(seqs, models):
+        items, owner = W.build_items(q, m)
+        sc = W.base_scenario(); sc.items = items
+        scs.append(sc); meta.append((items, owner))
+    rs = session.run_sessions(ctx, b, scs)
+    seen = []
+    for q, m, r, (items, owner) in zip(seqs, models, rs, meta):
+        g, obs = W.observe(r, items, owner, len(q))
+        seen.append(([o['codes'] for o in obs], [e for _, e in r.handoffs if e]))
+    fails = []
+    for (pre, x, probe), k in index.items():
+        if x is None:
+            continue
+        codes, hand = seen[k]
+        bc, bh = seen[index[(pre, None, probe)]]
+        cx = codes[len(pre)]
+        ctx.count('refused-changes-nothing:' + ('refused' if cx[:1] and cx[0][:1] == '5' else 'accepted'))
+        if not (cx[:1] and cx[0][:1] == '5') or x == 'rcpt_alice' and len(pre) > 1:
+            continue          # the command was in order here (or is a RCPT inside a transaction, which is judged elsewhere)
+        if codes[len(pre) + 1:] != bc[len(pre):] or hand != bh:
+            fails.append((' '.join(list(pre) + [x] + list(probe)), 'behind the refused %s: %s queued=%d | without it: %s queued=%d' %
+                          (x, codes[len(pre) + 1:], len(hand), bc[len(pre):], len(bh)),
+                          'fails refused-command-changes-nothing (an out-of-order command answered 5xx changed what follows)'))
+    ctx.cov['evaluations'] += len(seqs)
+    ctx.cov['traces_validated_against_impl'] += len(seqs)
+    vlib.handle_results(ctx, 'refused-changes-nothing', 'two-run relation on the real command loop', [], fails)
+
+
 def run(ctx):
     vlib.lean_prepare(ctx, REQUIRED)
     b = session.build_qsmtpd(ctx)
     if b:
         seqs = gen_sequences(ctx)
         run_sequences(ctx, b, seqs, W.env_token(), lambda: W.base_scenario(), 'command-sequences')
+        refused_changes_nothing(ctx, b)
         # DATA failing in the queueing child (before reading, mid message, exit codes, signal): per case its own script
         fs = fault_sequences(ctx)
         ctx.count('queue-fault-sequences', len(fs))
